@@ -39,3 +39,34 @@ def _imp(test, taken, pred):
 def text_pred(*texts):
     ts = set(texts)
     return lambda e: src(e) in ts
+
+
+def rimplied(state, pred):
+    """like implied() but on the *resolved* text of each test (locals substituted by their definitions
+    at the time the test was evaluated); pred(text) -> bool."""
+    val = None
+    for tmap, taken, test in state.rconds:
+        v = _rimp(test, taken, pred, tmap)
+        if v is not None:
+            val = v
+    return val
+
+
+def _rimp(test, taken, pred, tmap):
+    txt = tmap.get(id(test), '')
+    if txt and pred(txt):
+        return taken
+    if isinstance(test, ast.UnaryOp) and isinstance(test.op, ast.Not):
+        return _rimp(test.operand, not taken, pred, tmap)
+    if isinstance(test, ast.BoolOp):
+        if isinstance(test.op, ast.And) and taken:
+            for v in test.values:
+                r = _rimp(v, True, pred, tmap)
+                if r is not None:
+                    return r
+        if isinstance(test.op, ast.Or) and not taken:
+            for v in test.values:
+                r = _rimp(v, False, pred, tmap)
+                if r is not None:
+                    return r
+    return None
